@@ -88,6 +88,8 @@ def generate(rs: int, tier: str, index: int) -> dict:
     lit["retain"] = ch.chance(0.3)
     view = ch.weighted([(6, "none"), (2, "T"), (1, "slice")]) if len(shape) >= 1 else "none"
     step: Dict[str, Any] = {"id": 0, "k": kind, "p": lit, "view": view}
+    if kind in ("pickle", "copy") and ch.sub("swapped").chance(0.15):
+        step["swapped"] = True  # coefficients in the other byte order (foreign data): same name, same scalar type, not the same dtype
     if kind == "pickle":
         step["protocol"] = ch.below(6)
         step["via"] = ch.choice(["dumps", "stream", "oob" if step["protocol"] == 5 else "dumps"])
@@ -589,6 +591,9 @@ class Runner:
             except core.Undecided as exc:
                 self.bump(f"undecided:{exc.reason}")
                 continue
+            if step.get("swapped"):
+                p = p.astype(p.dtype.newbyteorder(">"))
+                self.bump("probe:byte_swapped_coefficients")
             if step["k"] == "pickle":
                 self.do_pickle(step, p)
             elif step["k"] == "copy":
